@@ -639,6 +639,11 @@ func (ex *Exec) Run(fn *ssa.Function) {
 	// run package initialisers of repo packages reachable from the harness package
 	ex.initDone = map[*ssa.Package]bool{}
 	ex.runInits(st, fn.Pkg)
+	for _, p := range ex.prog.AllPackages() {
+		if p.Pkg.Path() == modPath+"/zz_verif_model" {
+			ex.runInits(st, p)
+		}
+	}
 	ex.work = append(ex.work, st)
 	for len(ex.work) > 0 {
 		if time.Now().After(ex.deadline) {
@@ -755,6 +760,22 @@ func (st *State) takeBenc(t types.Type) (Value, bool) {
 		}
 	}
 	return nil, false
+}
+
+// modelFuncs redirects library calls to executable Go models in package zz_verif_model.
+var modelFuncs = map[string]string{
+	"(*sync.Map).Load": "MapLoad", "(*sync.Map).Store": "MapStore", "(*sync.Map).LoadOrStore": "MapLoadOrStore",
+	"(*sync.Map).Delete": "MapDelete", "(*sync.Map).Range": "MapRange",
+	"(*math/rand/v2.Rand).Perm": "RandPerm", "math/rand/v2.Perm": "RandPermGlobal",
+}
+
+func (ex *Exec) modelFunc(name string) *ssa.Function {
+	for _, p := range ex.prog.AllPackages() {
+		if p.Pkg.Path() == modPath+"/zz_verif_model" {
+			return p.Func(name)
+		}
+	}
+	return nil
 }
 
 type mergeRet struct {
@@ -1573,6 +1594,20 @@ func (ex *Exec) valEq(a, b Value) *Term {
 			c = And(c, ex.valEq(x.F[i], y.F[i]))
 		}
 		return c
+	case ArrV:
+		y := b.(ArrV)
+		c := True
+		for i := 0; i < x.N; i++ {
+			c = And(c, Eq(Select(x.A, Const(64, uint64(i))), Select(y.A, Const(64, uint64(i)))))
+		}
+		return c
+	case CellsV:
+		y := b.(CellsV)
+		c := True
+		for i := range x.C {
+			c = And(c, ex.valEq(x.C[i], y.C[i]))
+		}
+		return c
 	case OpaqueV:
 		y, ok := b.(OpaqueV)
 		if ok && x.Kind == "float" {
@@ -1887,6 +1922,13 @@ func (ex *Exec) callValue(st *State, fv Value, args []Value, in *ssa.Call, pos t
 		name := f.Fn.String()
 		if ex.inInit && f.Fn.Name() == "init" && f.Fn.Pkg != nil && f.Fn.Pkg != st.top().fn.Pkg {
 			return true
+		}
+		if mn, ok := modelFuncs[name]; ok {
+			if mf := ex.modelFunc(mn); mf != nil {
+				ex.intr["MODEL:"+name] = true
+				f = FuncV{Fn: mf}
+				name = mf.String()
+			}
 		}
 		if ex.cfg.cut(name) {
 			ex.intr["CUT:"+name] = true
